@@ -9,7 +9,7 @@ import sched as schedmod
 PROP_FILES = ["State/Properties_C14.v"]
 MANIFEST = dict(
     technique="Coq proof by invariants preserved by every atomic step of n processes over a file-system model (names/inodes/flock), for arbitrary schedules (list pid, lock time-outs as a scheduling outcome of try-lock-with-deadline); tied to /repo by driving real processes through explicit schedules with the verif-hooks barriers (tools/sched.py) and comparing final files, exit codes, messages, hook traces and lock waits with the model",
-    text="Theorems C14_no_torn_read, C14_final_is_some_writers, C14_written_is_complete, C14_never_blocked, C14_wait_bounded, C14_finishes_under_any_schedule, C14_lock_wait_within_timeout (the polling loop as a state machine over elapsed/interval: gives up in [time-out, time-out + one poll interval); C14_doubling_backoff_overshoots is the counterexample for a doubling interval), C14_snapshot_not_lost, C14_update_lock_exclusive, C14_update_lock_name_stable (the lock is taken on the inode <file>.lock denoted at open time; that name is never unbound or rebound), C14_lost_update_characterised hold for every number of processes, every command mix, every poll budget and every schedule (unbounded; D14, D15, D27 repaired, no known class; C14_unlocked_update_lost keeps the D15 witness for writers without the update lock). Tie: systematic + sampled (quick) or all (thorough) interleavings of the update-lock / load / lock / rename / unlock points of two real processes (sampled: three) for each command pair sharing a file (snapshot+snapshot, check+check on the cache, update-baseline+check --baseline, update-baseline x2 incl. temp-file points, snapshot+stats history, check with auto_snapshot_on_check + snapshot; the reader-holds-the-lock pairs also with the state file reached through a symbolic link) and each initial state, a reader run by the controller after every event (open, shared lock without waiting, read: never empty or torn), dedicated wall-clock measurements of a waiter blocked for good on the update lock / the exclusive / the shared lock with a 1000 ms time-out (bound: time-out + 50 ms + 0.25 s), a three-snapshot schedule family around upd:before_lock / upd:after_lock / snap:after_load, the inode number of <file>.lock sampled after every event (must never change or vanish), model-free continuation of a schedule after a divergence so that the property oracle still judges its outcome, lock time-outs forced with SGV_LOCK_TIMEOUT_MS=200.",
+    text="Theorems C14_no_torn_read, C14_final_is_some_writers, C14_written_is_complete, C14_never_blocked, C14_wait_bounded, C14_finishes_under_any_schedule, C14_lock_wait_within_timeout (the polling loop as a state machine over elapsed/interval: gives up in [time-out, time-out + one poll interval); C14_doubling_backoff_overshoots is the counterexample for a doubling interval), C14_snapshot_not_lost, C14_update_lock_exclusive, C14_update_lock_name_stable (the lock is taken on the inode <file>.lock denoted at open time; that name is never unbound or rebound), C14_lost_update_characterised hold for every number of processes, every command mix, every poll budget and every schedule (unbounded; D14, D15, D27 repaired, no known class; C14_unlocked_update_lost keeps the D15 witness for writers without the update lock). Tie: systematic + sampled (quick) or all (thorough) interleavings of the update-lock / load / lock / rename / unlock points of two real processes (sampled: three) for each command pair sharing a file (snapshot+snapshot, check+check on the cache, update-baseline+check --baseline, update-baseline x2 incl. temp-file points, snapshot+stats history, check with auto_snapshot_on_check + snapshot, two snapshots reading the same clock second; a reader-only command must list a number of entries the file held at some moment of the run; the reader-holds-the-lock pairs also with the state file reached through a symbolic link) and each initial state, a reader run by the controller after every event (open, shared lock without waiting, read: never empty or torn), dedicated wall-clock measurements of a waiter blocked for good on the update lock / the exclusive / the shared lock with a 1000 ms time-out (bound: time-out + 50 ms + 0.25 s), a three-snapshot schedule family around upd:before_lock / upd:after_lock / snap:after_load, the inode number of <file>.lock sampled after every event (must never change or vanish), model-free continuation of a schedule after a divergence so that the property oracle still judges its outcome, lock time-outs forced with SGV_LOCK_TIMEOUT_MS=200.",
     note="The wait bound is per lock acquisition (a command makes up to three in a row: update, shared, exclusive), not per process. Trusted: Coq kernel, extraction, kernel flock/rename semantics (State/Fs.v), the barrier hooks (a process is paused only AT a hook point); wall-clock bounds (no lock wait beyond the time-out) are measured on each run, not proved; C14_wait_bounded is the model-level statement (bounded number of own steps, never blocked).",
     ref="5 (C14), 9")
 
@@ -72,6 +72,8 @@ def scenarios():
         Scen("snapshot x3", "history", proj, {1: snap(1), 2: snap(2), 3: snap(3)}, init_hist, PTS_SNAP),
         Scen("snapshot x3 (update lock)", "history", proj, {1: snap(1), 2: snap(2), 3: snap(3)}, init_hist, PTS_UPD),
     ]
+    # two snapshots whose clocks read the SAME second (B queued on the update lock behind A): both entries must stay
+    S.append(Scen("snapshot+snapshot (same second)", "history", proj, {1: snap(1), 2: snap(1)}, init_hist, PTS_SNAP))
     # the reader-holds-the-lock pairs once more with the state file reached through a symbolic link
     for base, label in (("update-baseline+check--baseline", "baseline"), ("snapshot+stats-history", "history"), ("check+check(cache)", "cache")):
         b = [x for x in S if x.name == base][0]
@@ -353,10 +355,21 @@ def oracle(setup, init, m, o):
             bad.append(("torn-read", "process %d read an empty or torn %s file: %s" % (pid, sc.kind, op["err"].strip()[:100])))
         if sc.procs[pid]["model"] in ("snap", "asnap") and reported(sc, pid, op):
             ts = setup.own[pid][0]
-            if final is None or ts not in final:
+            # every acknowledged snapshot is an entry of its own (two acknowledged in the same second: two entries)
+            acked_same = [q for q, oq in o["procs"].items() if sc.procs[q]["model"] in ("snap", "asnap") and reported(sc, q, oq) and setup.own[q][0] == ts]
+            if final is None or final.count(ts) < len(acked_same):
                 skipped = "save skipped" in op["err"]
                 bad.append(("skipped-acked" if skipped else "lost-update",
-                            "process %d reported Snapshot recorded (entry %d) but the final history is %s" % (pid, ts, final)))
+                            "process %d reported Snapshot recorded (entry %d; %d processes reported an entry with this time stamp) but the final history is %s" % (pid, ts, len(acked_same), final)))
+        if sc.procs[pid]["model"] == "hist" and op["rc"] == 0:
+            # a reader-only command lists what the file held at some moment of the run: the initial entries plus
+            # 0..k of the snapshots of the other processes (the file is only ever replaced by a complete document)
+            n0 = len(setup.init_entries[init] or [])
+            k = sum(1 for q in sc.procs if sc.procs[q]["model"] in ("snap", "asnap"))
+            heads = ["No history entries found." if n == 0 else "History (%d of %d entries)" % (min(n, 10), n) for n in range(n0, n0 + k + 1)]
+            if not any(op["out"].startswith(h) for h in heads):
+                bad.append(("reader-lost-entries", "process %d (`%s`) printed `%s` although the history file held %d..%d entries during the whole run"
+                            % (pid, " ".join(sc.procs[pid]["args"]), op["out"].strip().splitlines()[0][:60] if op["out"].strip() else op["err"].strip()[-80:], n0, n0 + k)))
     for i, pr in enumerate(o.get("probes", [])):
         if pr in ("empty", "torn"):
             bad.append(("torn-read", "a reader that opened the %s file and took the shared lock after event %d of the schedule read an %s file" % (sc.kind, i, pr)))
